@@ -128,8 +128,10 @@ def registered (w : World) (a : Aid) : Bool :=
     | none => false
     | some r => r.hard.contains a
 
-/-- refcounting: alive iff registered (hard reference in `Model._agents`) or held by the program -/
-def alive (w : World) (a : Aid) : Bool := registered w a || w.held.contains a
+/-- refcounting: an agent that was created is alive iff it is registered (hard reference in
+    `Model._agents`) or held by the program -/
+def alive (w : World) (a : Aid) : Bool :=
+  decide (a < w.info.length) && (registered w a || w.held.contains a)
 
 def uidOf (w : World) (a : Aid) : Nat := match w.info[a]? with | some i => i.uid | none => 0
 def tyOf (w : World) (a : Aid) : Ty := match w.info[a]? with | some i => i.ty | none => 0
